@@ -167,7 +167,11 @@ partial def findPath (shapes : Array (Poly × (Rat × Rat × Rat × Rat))) (excl
   return none
 
 /-- failures found in a case; the one with the smallest priority number is reported
-    (route-level before mechanism-level, unclassified before classified) -/
+    (route-level before mechanism-level, unclassified before classified):
+    0 unclassified route failure (incl. a leg that is an edge the modelled sweep does not produce) · 5 blocked
+    visibility edge that the modelled sweep does not produce · 6 Lee edge set ≠ model · 10 classified interior hit ·
+    20 endpoint moved · 50/60 naive edge set ≠ model · 100/110 blocked visibility edge (unclassified / classified) ·
+    120 blocked orthogonal edge · 200 orthogonal edge not axis-parallel -/
 structure Fail where
   prio : Nat
   verdict : Verdict
@@ -259,9 +263,9 @@ def run1 (c : Case) : CaseResult := Id.run do
         fails := ⟨0, .specfail s!"too-short conn {cn.id} {kind} ({ck}): fewer than 2 points ({rt.length})"⟩ :: fails
         continue
       if rt.head? != some cn.src then
-        fails := ⟨2, .specfail s!"endpoint-moved conn {cn.id} {kind} ({ck}): starts at {ptStr (rt.headD ⟨0,0⟩)} not at source {ptStr cn.src}"⟩ :: fails
+        fails := ⟨20, .specfail s!"endpoint-moved conn {cn.id} {kind} ({ck}): starts at {ptStr (rt.headD ⟨0,0⟩)} not at source {ptStr cn.src}"⟩ :: fails
       if rt.getLast? != some cn.dst then
-        fails := ⟨2, .specfail s!"endpoint-moved conn {cn.id} {kind} ({ck}): ends at {ptStr (rt.getLastD ⟨0,0⟩)} not at destination {ptStr cn.dst}"⟩ :: fails
+        fails := ⟨20, .specfail s!"endpoint-moved conn {cn.id} {kind} ({ck}): ends at {ptStr (rt.getLastD ⟨0,0⟩)} not at destination {ptStr cn.dst}"⟩ :: fails
       if rt.length > 2 then nontrivial := true
       stats := bumpStats stats s!"{kind}.len{min rt.length 6}" 1
       if cn.orth && !routeOrthogonal rt then stats := bumpStats stats s!"{kind}.orthNotAxisParallel" 1
@@ -278,7 +282,18 @@ def run1 (c : Case) : CaseResult := Id.run do
         if routeValid shapes excl (rt.headD ⟨0,0⟩) (rt.getLastD ⟨0,0⟩) rt tolShrink then
           fails := ⟨0, .diverge "internal: prefiltered search and proven checker disagree"⟩ :: fails
         else
-          let cls := if notInLeeModel a b then "class=sweep-model-blocks" else hitClass shapes i a b
+          -- displayRoute() merges collinear legs of route(): classify the hit by the raw route leg inside this display
+          -- leg that enters the same shape (if there is one), so that the class describes the visibility edge used
+          let sub : Option (Pt × Pt) :=
+            if kind == "display" then
+              match routes.find? (·.1 == cn.id) with
+              | some (_, raw) => (legs raw).find? fun l => onClosedSeg a b l.1 && onClosedSeg a b l.2 && !(l.1 == a && l.2 == b) &&
+                                   segHitsInteriorTol tolShrink (shapes.getD i []) l.1 l.2
+              | none => none
+            else none
+          let (ca, cb) := sub.getD (a, b)
+          let cls := if notInLeeModel ca cb then "class=sweep-model-blocks" else hitClass shapes i ca cb
+          let cls := if sub.isSome then s!"{cls} (by route leg {ptStr ca}-{ptStr cb})" else cls
           -- does an obstacle-free path exist at all?  (w.r.t. the routing polygons)
           let exclR := containing rpolys cn.src ++ containing rpolys cn.dst
           match findPath rpolysBB exclR cn.src cn.dst with
@@ -289,7 +304,7 @@ def run1 (c : Case) : CaseResult := Id.run do
               let deg (vn : Nat) : Nat := (vis.filter fun e => (e.o1 == cn.id && e.v1 == vn && e.c1) || (e.o2 == cn.id && e.v2 == vn && e.c2)).length
               let noVis := !cn.orth && allowPoly && rt.length == 2 && (deg 1 == 0 || deg 2 == 0)
               let extra := if noVis then " no-visibility-endpoint" else ""
-              fails := ⟨classPrio cls, .specfail s!"interior-hit conn {cn.id} {kind} ({ck},{lk}): leg {ptStr a}-{ptStr b} enters shape {i+1} {cls}{extra}; route has {rt.length} points; an obstacle-free path with {path.length} points exists"⟩ :: fails
+              fails := ⟨10 * classPrio ((cls.splitOn " ").headD ""), .specfail s!"interior-hit conn {cn.id} {kind} ({ck},{lk}): leg {ptStr a}-{ptStr b} enters shape {i+1} {cls}{extra}; route has {rt.length} points; an obstacle-free path with {path.length} points exists"⟩ :: fails
             else
               fails := ⟨0, .diverge "internal: exhibited path failed certification"⟩ :: fails
           | none => stats := bumpStats stats "noObstacleFreePath" 1
@@ -306,14 +321,14 @@ def run1 (c : Case) : CaseResult := Id.run do
         | none => false
       let cls := if unmodelled then "class=sweep-model-blocks" else hitClass rpolys i e.p1 e.p2
       if nVisBad ≤ 50 || classPrio cls == 0 then
-        fails := ⟨(if unmodelled then 0 else 10 + classPrio cls), .specfail s!"vis-edge-blocked ({lk}): visibility edge [{e.o1}.{e.v1}]{ptStr e.p1}-[{e.o2}.{e.v2}]{ptStr e.p2} passes through the interior of shape {i+1} {cls}"⟩ :: fails
+        fails := ⟨(if unmodelled then 5 else 100 + 10 * classPrio cls), .specfail s!"vis-edge-blocked ({lk}): visibility edge [{e.o1}.{e.v1}]{ptStr e.p1}-[{e.o2}.{e.v2}]{ptStr e.p2} passes through the interior of shape {i+1} {cls}"⟩ :: fails
     | none => pure ()
   if nVisBad > 0 then stats := bumpStats stats s!"visEdgesBlocked.{lk}" nVisBad
   -- orthogonal visibility: obstacles are the shapes' bounding boxes grown by the buffer, so the edges
   -- are checked against the real shapes
   for (p, q) in ovis do
     if !axisParallel p q then
-      fails := ⟨20, .diverge s!"orthogonal visibility edge {ptStr p}-{ptStr q} is not axis-parallel"⟩ :: fails
+      fails := ⟨200, .diverge s!"orthogonal visibility edge {ptStr p}-{ptStr q} is not axis-parallel"⟩ :: fails
     match firstHitBB tolShrink [] shapesBB (p, q) with
     | some i =>
       -- orthogonal edges through a non-rectangular shape whose bounding box contains a connector endpoint
@@ -322,7 +337,7 @@ def run1 (c : Case) : CaseResult := Id.run do
       let inBB (e : Pt) : Bool := bx0 - buffer < e.x && e.x < bx1 + buffer && by0 - buffer < e.y && e.y < by1 + buffer   -- Obstacle::routingBox()
       let ex := conns.any fun cn => inBB cn.src || inBB cn.dst
       if ex then stats := bumpStats stats "ovisBlockedConnEndpointInBBox" 1
-      else fails := ⟨12, .specfail s!"ovis-edge-blocked: orthogonal visibility edge {ptStr p}-{ptStr q} passes through the interior of shape {i+1}"⟩ :: fails
+      else fails := ⟨120, .specfail s!"ovis-edge-blocked: orthogonal visibility edge {ptStr p}-{ptStr q} passes through the interior of shape {i+1}"⟩ :: fails
     | none => pure ()
   -- ---------------------------------------------------------------- naive visibility = model
   if allowPoly && !lee && exact then
@@ -360,9 +375,9 @@ def run1 (c : Case) : CaseResult := Id.run do
         if m != has (pairKey oi vi oj vj) then
           ndiv := ndiv + 1
           if ndiv ≤ 3 then
-            fails := ⟨5, .diverge s!"naive visibility: edge [{oi}.{vi}]{ptStr a.pt}-[{oj}.{vj}]{ptStr b.pt} model={m} implementation={!m}"⟩ :: fails
+            fails := ⟨50, .diverge s!"naive visibility: edge [{oi}.{vi}]{ptStr a.pt}-[{oj}.{vj}]{ptStr b.pt} model={m} implementation={!m}"⟩ :: fails
     if ndiv == 0 && modelCount != vis.length then
-      fails := ⟨6, .diverge s!"naive visibility: implementation has {vis.length} edges, model {modelCount} (edge outside the candidate pairs)"⟩ :: fails
+      fails := ⟨60, .diverge s!"naive visibility: implementation has {vis.length} edges, model {modelCount} (edge outside the candidate pairs)"⟩ :: fails
     stats := bumpStats stats "naiveModelEdges" modelCount
   -- ---------------------------------------------------------------- Lee's sweep = model (default algorithm)
   if let some ks := leeKeys then
@@ -374,12 +389,12 @@ def run1 (c : Case) : CaseResult := Id.run do
       if !hasKey ks (pairKey e.o1 e.v1 e.o2 e.v2) then
         ndiv := ndiv + 1
         if ndiv ≤ 3 then
-          fails := ⟨1, .diverge s!"lee visibility: edge [{e.o1}.{e.v1}]{ptStr e.p1}-[{e.o2}.{e.v2}]{ptStr e.p2} model=false implementation=true"⟩ :: fails
+          fails := ⟨6, .diverge s!"lee visibility: edge [{e.o1}.{e.v1}]{ptStr e.p1}-[{e.o2}.{e.v2}]{ptStr e.p2} model=false implementation=true"⟩ :: fails
     for k in ks do
       if !hasKey visKeys k then
         ndiv := ndiv + 1
         if ndiv ≤ 3 then
-          fails := ⟨1, .diverge s!"lee visibility: edge [{k.1 / 100000}.{k.1 % 100000}]-[{k.2 / 100000}.{k.2 % 100000}] model=true implementation=false"⟩ :: fails
+          fails := ⟨6, .diverge s!"lee visibility: edge [{k.1 / 100000}.{k.1 % 100000}]-[{k.2 / 100000}.{k.2 % 100000}] model=true implementation=false"⟩ :: fails
     if ndiv > 0 then stats := bumpStats stats "leeModelDiffs" ndiv
   match worst fails with
   | some f => return { verdict := f.verdict, nontrivial := nontrivial, stats := bumpStats stats "failuresInCase" fails.length }
